@@ -2,6 +2,7 @@ package main
 
 import (
 	"context"
+	"crypto/tls"
 	"encoding/json"
 	"errors"
 	"net/http"
@@ -57,12 +58,24 @@ type c09Templ struct {
 }
 
 type c09Server struct {
-	Abs    bool      `json:"abs"`
-	Scheme string    `json:"scheme"`
-	Host   []c09Part `json:"host"`
-	Port   []c09Part `json:"port"`
-	Base   []string  `json:"base"`
-	Slash  bool      `json:"slash"`
+	Abs    bool       `json:"abs"`
+	Scheme string     `json:"scheme"`
+	Host   []c09Part  `json:"host"`
+	Port   []c09Part  `json:"port"`
+	Base   []string   `json:"base"`
+	Slash  bool       `json:"slash"`
+	Sch    *c09SchVar `json:"sch"` // the scheme is the server variable {V} with the enum Enum and the default Scheme
+	Bv     []c09BVar  `json:"bv"`  // base-path variables: segment I (1-based) of Base is the variable V, Base[I-1] its default
+}
+
+type c09SchVar struct {
+	V    string   `json:"v"`
+	Enum []string `json:"enum"`
+}
+
+type c09BVar struct {
+	I int    `json:"i"`
+	V string `json:"v"`
 }
 
 type c09Doc struct {
@@ -76,6 +89,7 @@ type c09URL struct {
 	Host   []string `json:"host"`
 	Port   []string `json:"port"`
 	Path   []string `json:"path"`
+	Form   string   `json:"form"` // "server": path-only Request.URL, host[:port] in Request.Host, https as Request.TLS (optional)
 	Tail   string   `json:"tail"` // what follows the path: "?", "?a=1", "?a=1#top", "#top" (optional)
 }
 
@@ -119,7 +133,12 @@ func c09ServerJSON(s c09Server) map[string]any {
 		}
 	}
 	if s.Abs {
-		b.WriteString(s.Scheme)
+		if s.Sch != nil {
+			b.WriteString("{" + s.Sch.V + "}")
+			vars[s.Sch.V] = map[string]any{"default": s.Scheme, "enum": s.Sch.Enum}
+		} else {
+			b.WriteString(s.Scheme)
+		}
 		b.WriteString("://")
 		for i, p := range s.Host {
 			if i > 0 {
@@ -134,7 +153,15 @@ func c09ServerJSON(s c09Server) map[string]any {
 			note(p)
 		}
 	}
-	b.WriteString(c09PathText(s.Base))
+	base := append([]string{}, s.Base...)
+	for _, bv := range s.Bv {
+		if bv.I < 1 || bv.I > len(base) {
+			panic("harness: c09 base-path variable outside the base path")
+		}
+		vars[bv.V] = map[string]any{"default": s.Base[bv.I-1]}
+		base[bv.I-1] = "{" + bv.V + "}"
+	}
+	b.WriteString(c09PathText(base))
 	if s.Slash {
 		b.WriteByte('/')
 	}
@@ -259,6 +286,9 @@ var (
 // c09Find calls FindRoute and projects the result; the returned route object (nil if none) is handed
 // back so that the caller can keep holding it while further requests are routed.
 func c09Find(r routers.Router, req *http.Request) (map[string]any, *routers.Route) {
+	if r == nil {
+		return map[string]any{"k": "unbuilt"}, nil
+	}
 	obs, route := c09FindObs(r, req)
 	if obs["k"] != "route" {
 		route = nil
@@ -324,6 +354,49 @@ func c09FindObs(r routers.Router, req *http.Request) (map[string]any, *routers.R
 	return obs, route
 }
 
+// c09Request builds the *http.Request of an abstract request: from its URL text (the form a client holds), or -- form
+// "server" -- the way net/http hands a request to a handler: Request.URL is the path and query, the host is in
+// Request.Host, and an https request shows as a non-nil Request.TLS.
+func c09Request(r c09Req) *http.Request {
+	u := r.U
+	if u.Form == "server" {
+		if !u.Abs || (u.Scheme != "http" && u.Scheme != "https") {
+			panic("harness: c09 server-form request needs an absolute http(s) URL")
+		}
+		rel := c09URL{Path: u.Path, Tail: u.Tail}
+		req, err := http.NewRequest(r.M, c09URLText(rel), nil)
+		if err != nil {
+			panic("harness: c09 request cannot be built: " + err.Error())
+		}
+		req.Host = strings.Join(u.Host, ".")
+		for _, p := range u.Port {
+			req.Host += ":" + p
+		}
+		req.RequestURI = req.URL.RequestURI()
+		if u.Scheme == "https" {
+			req.TLS = &tls.ConnectionState{}
+		}
+		return req
+	}
+	req, err := http.NewRequest(r.M, c09URLText(u), nil)
+	if err != nil {
+		panic("harness: c09 request cannot be built: " + err.Error())
+	}
+	return req
+}
+
+// c09RequestURL reads the request URL back from the request object, whatever its form.
+func c09RequestURL(req *http.Request) string {
+	if req.URL.IsAbs() || req.RequestURI == "" {
+		return req.URL.String()
+	}
+	scheme := "http"
+	if req.TLS != nil {
+		scheme = "https"
+	}
+	return scheme + "://" + req.Host + req.URL.String()
+}
+
 func c09Run(c *Case) []any {
 	var tc c09Case
 	c.Decode(&tc)
@@ -342,33 +415,42 @@ func c09Run(c *Case) []any {
 		line["msg"] = err.Error()
 		return []any{line}
 	}
+	// construction is an observation of its own, per router: "ok" | "error" | "panic"; a router that was not built
+	// observes nothing ("unbuilt"), the other one is still run
 	var g, l routers.Router
-	var gerr, lerr error
-	if p, msg := guard(func() { g, gerr = gorillamux.NewRouter(doc) }); p || gerr != nil {
-		line["load"] = "gorillamux_newrouter_failed"
-		line["msg"] = msg
-		return []any{line}
+	built := map[string]any{}
+	build := func(key string, mk func() (routers.Router, error)) routers.Router {
+		var r routers.Router
+		var err error
+		p, msg := guard(func() { r, err = mk() })
+		switch {
+		case p:
+			built[key] = "panic"
+			line[key+"msg"] = msg
+			return nil
+		case err != nil || r == nil:
+			built[key] = "error"
+			if err != nil {
+				line[key+"msg"] = err.Error()
+			}
+			return nil
+		}
+		built[key] = "ok"
+		return r
 	}
-	if p, msg := guard(func() { l, lerr = legacy.NewRouter(doc) }); p || lerr != nil {
-		line["load"] = "legacy_newrouter_failed"
-		line["msg"] = msg
-		return []any{line}
-	}
+	g = build("g", func() (routers.Router, error) { return gorillamux.NewRouter(doc) })
+	l = build("l", func() (routers.Router, error) { return legacy.NewRouter(doc) })
 	line["load"] = "ok"
+	line["built"] = built
 	line["rdoc"] = c09ProjectDoc(doc)
 
 	ru, rm, og, ol := []any{}, []any{}, []any{}, []any{}
 	var heldG, heldL []*routers.Route // every route object returned during this case, kept by the caller
 	for _, r := range tc.Reqs {
-		mk := func() *http.Request {
-			req, err := http.NewRequest(r.M, c09URLText(r.U), nil)
-			if err != nil {
-				panic("harness: c09 request cannot be built: " + err.Error())
-			}
-			return req
-		}
+		r := r
+		mk := func() *http.Request { return c09Request(r) }
 		req := mk()
-		ru = append(ru, req.URL.String())
+		ru = append(ru, c09RequestURL(req))
 		rm = append(rm, req.Method)
 		o, rt := c09Find(g, req)
 		og, heldG = append(og, o), append(heldG, rt)
